@@ -114,7 +114,9 @@ class Lens:
         last medium"""
         b, a = self.media()
         one = self.ctx.const(1.0)
-        return self.c + [one * 0], list(self.t), b + [a[-1]], a + [a[-1]]
+        img = getattr(self, 'image_n', None)
+        img = a[-1] if img is None else one * img * (-1 if sum(self.mirrors) % 2 else 1)
+        return self.c + [one * 0], list(self.t), b + [a[-1]], a + [img]
 
     def forward(self, first=0, last=None, refract_first=True, refract_last=True):
         c, t, b, a = self.full()
@@ -136,7 +138,8 @@ class Lens:
         cs = [one * 0] + [-c for c in self.c[::-1]]
         ts = [t for t in self.t[::-1]]
         mirrors = [False] + self.mirrors[::-1]
-        n_start = mat[-1]
+        img = getattr(self, 'image_n', None)
+        n_start = mat[-1] if img is None else one * img
         ns = [mat[-1]] + pre[::-1]
         after = signed_media(n_start, ns, mirrors)
         before = [n_start] + after[:-1]
@@ -398,3 +401,45 @@ def h4_linear(ctx, K, mirrors):
         ctx.oblige(f'lin_y{k}', ctx.eq(Y3[k], a * Y1[k] + b * Y2[k]))
         ctx.oblige(f'lin_u{k}', ctx.eq(U3[k], a * U1[k] + b * U2[k]))
     ctx.observe('y_last', Y3[-1])
+
+
+@harness('C04', 'H5_after_edit', funcs=FUNCS + ['optiland.optic.Optic.set_index', 'optiland.optic.Optic.set_radius', 'optiland.optic.Optic.set_thickness'],
+         cases=lambda tier: [dict(op=op, at=at) for op, at in (('set_index', 1), ('set_index', 2), ('set_radius', 2), ('set_thickness', 1))],
+         bounds='K=2 lens, one edit with a symbolic argument, then the cardinal points / marginal ray of the edited lens',
+         doc='a lens reached through an edit has the paraxial properties of its new prescription (wiring of edits into the paraxial trace)')
+def h5_after_edit(ctx, op, at):
+    L = Lens(ctx, 2, (), 1, 'inf')
+    o = L.build()
+    n2_old = L.n[1]
+    if op == 'set_index':
+        v = ctx.real('v', lo=1.0, hi=4.0)
+        o.set_index(v, at)
+        L.n[at - 1] = v
+        if at == 2:
+            L.image_n = n2_old   # the image surface keeps the medium it was built with
+    elif op == 'set_radius':
+        v = ctx.real('v', ne=0)
+        o.set_radius(v, at)
+        L.R[at - 1] = v
+        L.c[at - 1] = 1 / v
+    else:
+        v = ctx.real('v')
+        o.set_thickness(v, at)
+        L.t[at - 1] = v
+    px = o.paraxial
+    c_, t_, b, a = L.full()
+    M = L.forward()
+    A, C = M[0][0], M[1][0]
+    nK = a[-1]
+    _oblige_val(ctx, 'f2', px.f2(), -nK / C)
+    _oblige_val(ctx, 'F2', px.F2(), -A * nK / C)
+    cs, ts, rb, ra = L.reversed_lens()
+    Mr = chain(cs, ts, rb, ra)
+    _oblige_val(ctx, 'f1', px.f1(), ra[-1] / Mr[1][0])
+    _oblige_val(ctx, 'F1', px.F1(), Mr[0][0] * ra[-1] / Mr[1][0])
+    ya, ua = px.marginal_ray()
+    for k in range(3):
+        Mk = L.forward(0, k, True, True)
+        _oblige_val(ctx, f'marg_y{k + 1}', ya[k + 1], Mk[0][0] * 5.0)
+        _oblige_val(ctx, f'marg_u{k + 1}', ua[k + 1], Mk[1][0] * 5.0 / a[k])
+    ctx.observe('f2', px.f2())
